@@ -96,7 +96,8 @@ def build_T17(tree):
                 for inner in st.body:
                     block.append(Sub().visit(ast.parse(ast.unparse(inner)).body[0]))
             continue
-        if isinstance(st, ast.Assign) and ast.unparse(st.targets[0]) == 'concept.__class__':
+        if isinstance(st, ast.Assign) and isinstance(st.targets[0], ast.Attribute) and st.targets[0].attr == '__class__' \
+                and isinstance(st.targets[0].value, ast.Name):
             if ast.unparse(st.value) != 'cls':
                 raise Unsupported('concept.__class__ is no longer set to cls')
             saw_class_assign = True
